@@ -189,6 +189,21 @@ void HybridMesher::load(const std::array<const HybridTree<3>*, 4>& ts)
         }
     }
 
+#ifdef LIBFIVE_VERIF
+    {   // dump the neighbourhood of this edge: indices of the shared edge and
+        // corner vertices, then (leaf level, type) of each of the four cells
+        uint64_t verif_cells[11];
+        for (unsigned j=0; j < 3; ++j) {
+            verif_cells[j] = subvs.at(j).index;
+        }
+        for (unsigned j=0; j < 4; ++j) {
+            verif_cells[3 + 2*j] = ts.at(j)->leafLevel();
+            verif_cells[4 + 2*j] = ts.at(j)->type;
+        }
+        LIBFIVE_VERIF_POINT(verif::SITE_TET, 2, 0, verif_cells);
+    }
+#endif
+
     // Now that we've populated our vertex table, we walk around the four cells
     // and perform marching tetrahedrons on 4 tets within each cell.
     //
